@@ -283,6 +283,17 @@ def cfgs(kinds):
     return s()
 
 
+NUMERIC_ONLY = {"filter", "fc_sparse", "sum", "lena_sum"}
+
+
+def flow_value(kind):
+    """values of the flow: small integers; for elements that do not compute with them also None and
+    false values (a value must never be mistaken for 'no value')"""
+    if kind in NUMERIC_ONLY:
+        return st.integers(0, 9)
+    return st.one_of(st.integers(0, 9), st.integers(0, 9), st.integers(0, 9), st.sampled_from([None, None, False, ""]))
+
+
 @st.composite
 def run_case(draw, big=False):
     cfg = draw(cfgs(KINDS))
@@ -292,7 +303,7 @@ def run_case(draw, big=False):
         # buffers are not used with yield_on_remainder: none is needed
         cfg["mode"] = draw(st.sampled_from(["none", "both"]))
     m = draw(st.integers(0, 60 if big else 17))
-    flow = draw(st.lists(st.integers(0, 9), min_size=m, max_size=m))
+    flow = draw(st.lists(flow_value(cfg["kind"]), min_size=m, max_size=m))
     return {"cfg": cfg, "flow": flow, "via": draw(st.sampled_from(["direct", "sequence", "twice"]))}
 
 
@@ -352,7 +363,7 @@ def history_case(draw, big=False):
         if draw(st.integers(0, 9)) < preq:
             ops.append("r")
         else:
-            ops.append(draw(st.integers(0, 9)))
+            ops.append(draw(flow_value(cfg["kind"])))
     ops.append("r")
     return {"cfg": cfg, "ops": ops, "consume": draw(st.sampled_from(["list", "list", "lazy"]))}
 
